@@ -106,10 +106,11 @@ def spec(ctx):
         Harness("c06_pieces_never_go_back", "e2", split=True, timeout=120, clause="arbitrary phase boundaries (hook): piece order monotone in t; exact intervals when ordered"),
     ]
     nd = ["phase boundaries at or beyond 2^60 ns (rrtk's checked i64 arithmetic may panic there)"]
-    if not ctx.quick:
-        hs.append(Harness("c06_constructor_orders_phases", "e2", timeout=900, split=True, allow_fail=CTOR_REJECTS, clause="constructor panics or yields 0 <= t1 <= t2 <= t3"))
-    else:
-        nd.append("'constructor panics or yields 0 <= t1 <= t2 <= t3' is attempted in the thorough tier only (needs monotonicity of f32 +, *1e9 and the saturating cast: non-structural)")
+    # measured (thorough run, 2026-10-03): t1 >= 0 is proved, t1 <= t2 and t2 <= t3 do not finish in 900 s per query on either solver.
+    # They need monotonicity of f32 '+', '* 1e9' and of the saturating float->int cast: non-structural facts. The harness is kept
+    # in the generated crate for reference but is not part of either tier.
+    nd.append("'the constructor either panics or yields 0 <= t1 <= t2 <= t3': t1 >= 0 is decided (C07 proves t1 == trunc(t1f*1e9) with t1f >= 0 asserted by the constructor), "
+              "t1 <= t2 <= t3 is NOT decided (cvc5 and z3 both exceed 900 s; needs monotonicity of f32 +, *1e9 and the saturating cast)")
     return {
         "crates": [{"rust": RUST, "harnesses": hs}],
         "functions": ["MotionProfile::{new, get_piece, get_mode, get_acceleration, get_velocity, get_position}", "History<Command> for MotionProfile",
